@@ -26,6 +26,7 @@ type Env struct {
 	header *ssa.BasicBlock // loop header for $i
 	depth  int
 	lets   map[string]*Clause
+	preferCells bool // loop invariants / call-site clauses: a parameter name means the CURRENT value of its cell
 }
 
 type evalErr struct{ msg string }
@@ -293,6 +294,13 @@ func (env *Env) ident(name string) Val {
 		return n.eval(c.Expr)
 	}
 	if env.frame != nil {
+		if env.preferCells && !env.inOld {
+			if id, ok := env.frame.cellByName[name]; ok && id >= 0 {
+				if _, have := env.st.cells[id]; have {
+					return env.cell(id)
+				}
+			}
+		}
 		if v, ok := env.frame.params[name]; ok {
 			return v
 		}
